@@ -361,9 +361,22 @@ impl Write for Writer {
         // Append the head set, then atomically point the root at it + the
         // fact cache.
         let (_, heads_offset) = self.append_at(|_| heads.clone())?;
+        let previous = (self.root.heads, self.root.fact_cache);
         self.root.heads = Some(heads_offset);
         self.root.fact_cache = Some(fact_cache.get());
 
+        let result = self.make_root_durable();
+        if result.is_err() {
+            // The commit did not happen: keep answering `heads` and
+            // `fact_cache` from the last committed root.
+            (self.root.heads, self.root.fact_cache) = previous;
+        }
+        result
+    }
+}
+
+impl Writer {
+    fn make_root_durable(&mut self) -> Result<(), StorageError> {
         // Barrier 1: ensure the appended data is durable before the
         // root that references it, so a crash can't leave the root
         // pointing at data that never reached disk.
